@@ -3,7 +3,7 @@
 // Contracts for package hash, read only by /verif/bin/vcheck (comment-only file: no effect on any build).
 package hash
 
-//@ func ComputeSHA3_256 mode int props C13 C09
+//@ func ComputeSHA3_256 mode int props C13 C09 tags purego
 //@ requires result != nil
 //@ assigns *result
 
@@ -39,3 +39,130 @@ package hash
 //@ ensures [prefix] result[0] == bytelen(w) && forall(k, 0, bytelen(w), result[1+k] == bebyte(w, 8 - bytelen(w) + k))
 //@ ensures [payload] forall(k, 0, len(input), result[bytelen(w) + 1 + k] == input[k])
 //@ ensures [zeros] forall(k, bytelen(w) + 1 + len(input), len(result), result[k] == 0)
+
+// ---------------------------------------------------------------------------------------------
+// Keccak sponge (SHA3-256/384, legacy Keccak-256). Verified in the purego configuration (xor_generic.go);
+// in the default configuration xorIn / copyOut / asBytes use unsafe casts and keccakF1600 is assembly:
+// there they are assumed to satisfy the same contracts.
+
+//@ pred spongeShape(d) = d != nil && (d.rate == 136 || d.rate == 104) && 0 <= d.outputLen && d.outputLen <= 200
+//@ pred spongeInv(d) = spongeShape(d) && ((d.bufIndex == -1 && d.bufSize == -1) || (d.bufIndex == 0 && 0 <= d.bufSize && d.bufSize <= d.rate))
+//@ pred spongeReady(d) = spongeShape(d) && d.bufIndex == 0 && 0 <= d.bufSize && d.bufSize <= d.rate
+//@ pred spongeKept(d) = unchanged(d.rate) && unchanged(d.outputLen) && unchanged(d.dsByte) && unchanged(d.algo)
+
+//@ func keccakF1600 trusted tags purego
+//@ requires a != nil
+//@ assigns a[:]
+
+//@ func (*storageBuf).asBytes mode int props C13 C09 tags purego
+//@ requires b != nil
+//@ assigns nothing
+//@ ensures result == b
+
+//@ func xorIn mode int props C13 C09 tags purego
+//@ requires d != nil && len(buf) % 8 == 0 && len(buf) <= 200 && disjoint(buf[:], d.a[:])
+//@ assigns d.a[:]
+//@ ensures [lanes-xored] forall(k, 0, len(buf)/8, d.a[k] == (old(d.a[k]) ^ le64(buf[8*k:8*k+8])))
+//@ ensures [other-lanes-kept] forall(k, len(buf)/8, 25, d.a[k] == old(d.a[k]))
+//@ loop 1 invariant 0 <= i && i < len(arg1)/8 && buf == arg1[8*i:]
+//@ loop 1 invariant forall(k, 0, i, d.a[k] == (old(d.a[k]) ^ le64(arg1[8*k:8*k+8]))) && forall(k, i, 25, d.a[k] == old(d.a[k]))
+
+//@ func copyOut mode int props C13 C09 tags purego
+//@ requires d != nil && len(b) <= 200 && len(b) % 8 == 0 && disjoint(b[:], d.a[:])
+//@ assigns b[:]
+//@ ensures [lanes-out] forall(k, 0, len(b)/8, le64(b[8*k:8*k+8]) == d.a[k])
+//@ loop 1 invariant 0 <= i && 8*i <= len(arg0) && b == arg0[8*i:] && forall(k, 0, i, le64(arg0[8*k:8*k+8]) == d.a[k])
+
+//@ func (*spongeState).buf mode int props C13 C09 tags purego
+//@ requires spongeReady(d)
+//@ assigns nothing
+//@ ensures len(result) == d.bufSize && forall(k, 0, d.bufSize, &result[k] == &d.storage[k])
+
+//@ func (*spongeState).setBuf mode int props C13 tags purego
+//@ requires d != nil
+//@ assigns d.bufIndex, d.bufSize
+//@ ensures d.bufIndex == start && d.bufSize == size
+
+//@ func (*spongeState).bufIsNil mode int props C13 tags purego
+//@ requires d != nil
+//@ assigns nothing
+//@ ensures result == (d.bufSize == -1)
+
+//@ func (*spongeState).appendBuf mode int props C13 C09 tags purego
+//@ requires spongeReady(d) && d.bufSize + len(slice) <= d.rate && obj(slice) != obj(d)
+//@ assigns d.storage, d.bufSize
+//@ ensures d.bufSize == old(d.bufSize) + len(slice) && unchanged(d.bufIndex)
+//@ ensures [appended] forall(k, 0, len(slice), d.storage[old(d.bufSize) + k] == old(slice[k]))
+//@ ensures [prefix-kept] forall(k, 0, old(d.bufSize), d.storage[k] == old(d.storage[k]))
+
+//@ func (*spongeState).Reset mode int props C13 C09 tags purego
+//@ requires spongeInv(d)
+//@ assigns d.a[:], d.bufIndex, d.bufSize
+//@ ensures [state-cleared] forall(k, 0, 25, d.a[k] == 0) && d.bufIndex == 0 && d.bufSize == 0
+//@ loop 1 invariant forall(k, 0, i, d.a[k] == 0)
+
+//@ func (*spongeState).permute mode int props C13 C09 tags purego
+//@ requires spongeReady(d) && (d.bufSize == d.rate)
+//@ assigns d.a[:], d.bufIndex, d.bufSize
+//@ ensures d.bufIndex == 0 && d.bufSize == 0
+
+//@ func (*spongeState).write mode int props C13 C09 tags purego
+//@ requires spongeInv(d) && obj(p) != obj(d)
+//@ assigns d.a[:], d.storage, d.bufIndex, d.bufSize
+//@ ensures [inv] spongeReady(d)
+//@ ensures [buffer-never-left-full] (old(d.bufSize) < d.rate || len(p) > 0) ==> d.bufSize < d.rate
+//@ ensures [fill-level] 0 <= old(d.bufSize) && old(d.bufSize) < d.rate ==> d.bufSize == (old(d.bufSize) + len(p)) % d.rate
+//@ ensures [fill-level-fresh] old(d.bufSize) == -1 ==> d.bufSize == len(p) % d.rate
+//@ loop 1 invariant spongeReady(d) && 0 <= len(p) && len(p) <= len(arg1) && obj(p) == obj(arg1)
+//@ loop 1 invariant [never-full] d.bufSize < d.rate || (old(d.bufSize) == d.rate && len(p) == len(arg1))
+//@ loop 1 invariant [fill] 0 <= old(d.bufSize) && old(d.bufSize) < d.rate ==> (d.bufSize + len(p)) % d.rate == (old(d.bufSize) + len(arg1)) % d.rate
+//@ loop 1 invariant [fill-fresh] old(d.bufSize) == -1 ==> (d.bufSize + len(p)) % d.rate == len(arg1) % d.rate
+
+//@ func (*spongeState).padAndPermute mode int props C13 C09 tags purego
+//@ requires spongeInv(d) && d.bufSize < d.rate
+//@ assigns d.a[:], d.storage, d.bufIndex, d.bufSize
+//@ ensures d.bufIndex == 0 && d.bufSize == d.rate
+//@ loop 1 invariant spongeShape(d) && d.bufIndex == 0 && d.bufSize == d.rate && zerosStart <= i && i <= d.rate && 1 <= zerosStart && len(buf) == d.rate && forall(k, 0, d.rate, &buf[k] == &d.storage[k])
+
+//@ func (*spongeState).sum mode int props C13 C09 tags purego
+//@ requires spongeInv(d) && d.bufSize < d.rate && d.outputLen % 8 == 0
+//@ assigns d.a[:], d.storage, d.bufIndex, d.bufSize
+//@ ensures len(result) == d.outputLen && fresh(result) && d.bufIndex == 0 && d.bufSize == d.rate
+
+//@ func (*spongeState).ComputeHash mode int props C13 C09 tags purego
+//@ requires spongeInv(s) && s.outputLen % 8 == 0 && obj(data) != obj(s)
+//@ assigns s.a[:], s.storage, s.bufIndex, s.bufSize
+//@ ensures len(result) == s.outputLen && fresh(result)
+
+//@ func (*spongeState).Write mode int props C13 C09 tags purego
+//@ requires spongeInv(d) && obj(p) != obj(d)
+//@ assigns d.a[:], d.storage, d.bufIndex, d.bufSize
+//@ ensures result0 == len(p) && result1 == nil && spongeReady(d)
+//@ ensures [buffer-never-left-full] (old(d.bufSize) < d.rate || len(p) > 0) ==> d.bufSize < d.rate
+
+//@ func (*spongeState).Size mode int props C13 tags purego
+//@ requires d != nil
+//@ assigns nothing
+//@ ensures result == d.outputLen
+
+//@ func NewSHA3_256 mode int props C13 tags purego
+//@ assigns nothing
+//@ ensures typeis(result, *spongeState) && spongeInv(unbox(result, *spongeState)) && unbox(result, *spongeState).rate == 136 && unbox(result, *spongeState).outputLen == 32 && unbox(result, *spongeState).dsByte == 6 && unbox(result, *spongeState).bufSize == -1
+
+//@ func NewSHA3_384 mode int props C13 tags purego
+//@ assigns nothing
+//@ ensures typeis(result, *spongeState) && spongeInv(unbox(result, *spongeState)) && unbox(result, *spongeState).rate == 104 && unbox(result, *spongeState).outputLen == 48 && unbox(result, *spongeState).dsByte == 6 && unbox(result, *spongeState).bufSize == -1
+
+//@ func NewKeccak_256 mode int props C13 tags purego
+//@ assigns nothing
+//@ ensures typeis(result, *spongeState) && spongeInv(unbox(result, *spongeState)) && unbox(result, *spongeState).rate == 136 && unbox(result, *spongeState).outputLen == 32 && unbox(result, *spongeState).dsByte == 1 && unbox(result, *spongeState).bufSize == -1
+
+//@ func (*spongeState).SumHash mode int props C13 C09 tags purego
+//@ requires spongeInv(s) && s.bufSize < s.rate && s.outputLen % 8 == 0
+//@ assigns s.a[:], s.storage, s.bufIndex, s.bufSize
+//@ ensures len(result) == s.outputLen && fresh(result)
+
+//@ func (*spongeState).Algorithm mode int props C13 tags purego
+//@ requires s != nil
+//@ assigns nothing
+//@ ensures result == s.algo
